@@ -39,7 +39,7 @@ RULE = ("x = Rational::new(a,b), y = Rational::new(c,d); unary ops (new, neg, fl
         "the fractions, equal values in different representations, neighbours, powers of two); new(0,0) and 0/0 only in a tiny "
         "stream where both sides must panic; non-trivial = a reduction or sign move is needed / operands differ / value is not "
         "an integer (floor, ceil)")
-TRUSTED = ["executor harness/crates/c07 (builds Rational<i32|i64|i128> through the public API, prints fields / Ordering / "
+TRUSTED = ["executor harness/crates/c07 (builds Rational<i32|i64|i128> (and i8, i16, isize on the small box) through the public API, prints fields / Ordering / "
            "equality of values and of fixed-key SipHash digests / Display text)",
            "checks/c07.py (case generator, Coq term printer)"]
 ASSUMPTIONS = ["integers modelled as unbounded Z: the property excludes overflowing magnitudes; sampled operands stay <= 2^30 "
@@ -204,14 +204,15 @@ def generate(rng, tier):
                 form = FORMS[k % 4] if op in ARITH else "none"
                 k += 1
                 cases.append(mk("i64", op, form, a, b, c, d))
-    if quick:   # sampled pairs from the larger box
+    if True:    # sampled pairs from the larger box, every instantiation
         big = [(a, b) for a in range(-K1, K1 + 1) for b in range(-K1, K1 + 1) if b != 0]
-        for _ in range(2500):
+        for _ in range(2500 if quick else 15000):
             (a, b), (c, d) = rng.choice(big), rng.choice(big)
             op = rng.choice(BINARY)
             if op == "div" and c == 0:
                 c = 1
-            cases.append(mk(rng.choice(TYPES), op, rng.choice(FORMS) if op in ARITH else "none", a, b, c, d))
+            # the |.| <= 6 box fits every signed width (cross products stay below 2*36): all six instantiations
+            cases.append(mk(rng.choice(TYPES + ["i8", "i16", "isize"]), op, rng.choice(FORMS) if op in ARITH else "none", a, b, c, d))
     # ---- zero denominators: only the corner in which gcd(0,0) = 0 makes norm divide by zero (both sides panic)
     for ty in TYPES:
         cases.append(mk(ty, "new", "none", 0, 0))
